@@ -4,8 +4,10 @@ package main
 
 import (
 	"fmt"
+	"os"
 	"regexp"
 	"strings"
+	"sync"
 )
 
 type Decision struct {
@@ -221,6 +223,12 @@ func (in *Interp) checkSat(extra *Term) SatResult {
 }
 
 // decide forks on a boolean term. Returns the branch taken on this path.
+var (
+	forkSitesOn = os.Getenv("VERIF_FORKSITES") != ""
+	forkSitesMu sync.Mutex
+	forkSites   = map[string]int{}
+)
+
 func (in *Interp) decide(c *Term) bool {
 	if c.W != 0 {
 		panic("decide on non-bool")
@@ -293,6 +301,19 @@ func (in *Interp) decide(c *Term) bool {
 		return true
 	}
 	// both feasible (or unknown): fork
+	if forkSitesOn {
+		forkSitesMu.Lock()
+		st := in.stackTrace()
+		k := "?"
+		if len(st) > 0 {
+			k = st[0]
+		}
+		if len(st) > 3 {
+			k += " <- " + st[1] + " <- " + st[2] + " <- " + st[3]
+		}
+		forkSites[k]++
+		forkSitesMu.Unlock()
+	}
 	alt := append(append([]Decision(nil), p.decisions...), Decision{B: false})
 	p.forks = append(p.forks, alt)
 	p.decisions = append(p.decisions, Decision{B: true})
